@@ -378,11 +378,15 @@ func (p *Persister) flushNow(ctx context.Context, batch map[string]persistData, 
 
 	defer tx.Discard()
 	for id, data := range batch {
-		err := data.storeFunc(ctx)
-		if err != nil {
-			p.logger.Err(ctx, err).
+		setErr := data.storeFunc(ctx)
+		if setErr != nil {
+			p.logger.Err(ctx, setErr).
 				Str(log.ConnectorIDField, id).
 				Msg("error while saving connector")
+			// A connector that could not be written must not be reported as
+			// persisted: fail the whole flush, the transaction is discarded and
+			// every callback hears about the error.
+			err = setErr
 		}
 	}
 	if err == nil {
